@@ -261,3 +261,87 @@ func c02LongDigest(r *simkit.Run, w *World) {
 	r.MarkEnd()
 	w.Shutdown(sub, lst)
 }
+
+// c02AppHash: the chain's CIDs carry a hash code that go-multihash's registry
+// does not know and the application's link system does (its HasherChooser).
+// One block may be served altered. The subscriber may refuse such a chain
+// (it cannot check what it receives by its usual means) or sync it; what it
+// must not do is store or report bytes that do not hash, by the function the
+// application registered for that code, to the CID they were asked for by.
+func c02AppHash(r *simkit.Run, w *World) {
+	tp := r.Tape
+	r.EnableSites(map[string]bool{})
+	w.AppHash = true
+	nAds := tp.Range(1, 4, "appHash.ads")
+	proto := &cidlink.LinkPrototype{Prefix: cid.Prefix{Version: 1, Codec: uint64(multicodec.DagJson), MhType: simkit.AppOnlyHash, MhLength: -1}}
+	pub := w.NewPublisher(PubOpts{Name: "P1", NAds: nAds, Hosts: []string{"10.0.0.1:3104"}, Proto: proto, AppHash: true})
+	sub := w.NewSubscriber(dagsync.RecvAnnounce(""), dagsync.SegmentDepthLimit(int64(tp.Choose(3, "appHash.seg"))-1))
+	lst := &listener{}
+	lst.ch, lst.cancel = sub.Sub.OnSyncFinished()
+	altered := cid.Undef
+	what := "unaltered"
+	if tp.Chance(3, 4, "appHash.alter") {
+		at := tp.Choose(nAds, "appHash.at")
+		altered = pub.Ads[at]
+		orig, _ := pub.Store.Get(altered)
+		var b []byte
+		switch k := tp.Choose(5, "appHash.kind"); k {
+		case 0:
+			b, what = []byte(`{}`), "substituted"
+		case 1:
+			b, what = []byte{}, "empty"
+		case 2:
+			b, what = append(append([]byte{}, orig...), ' '), "appended"
+		case 3:
+			b, what = append([]byte{}, orig[:tp.Choose(len(orig), "appHash.trunc")]...), "truncated"
+		default:
+			b = append([]byte{}, orig...)
+			i := tp.Choose(len(b)*8, "appHash.bit")
+			b[i/8] ^= 1 << (i % 8)
+			what = "bit flipped"
+		}
+		pub.Store.Put(altered, b)
+		r.Probe("app-hash-altered-" + what)
+	}
+	r.Logf("~cfg", "application-only hash code, %d advertisements, block %s %s", nAds, w.CidName(altered), what)
+	for attempt := 0; attempt < 2 && !r.Failed(); attempt++ {
+		var err error
+		done := false
+		hook0 := len(sub.Hooks())
+		var opts []dagsync.SyncOption
+		if attempt > 0 {
+			opts = append(opts, dagsync.WithAdsResync(true))
+		}
+		r.Go(fmt.Sprintf("sync%d", attempt), func(t *simkit.Task) {
+			_, err = sub.Sub.SyncAdChain(bg, pub.AddrInfo(), opts...)
+			done = true
+			t.Logf("SyncAdChain -> err=%v", err != nil)
+		})
+		out := r.Loop(simkit.LoopCfg{MaxSteps: 400, Custom: w.Net.RequestAction, Done: func() bool { return done && len(r.AllParked()) == 0 }})
+		if out != "done" {
+			r.Violate("c02.liveness", "sync of a chain with an application-only hash code did not return (%s)", out)
+			break
+		}
+		hooks := sub.HooksSince(hook0)
+		if err != nil {
+			r.Probe("app-hash-refused")
+		} else {
+			r.Probe("app-hash-synced")
+			if altered.Defined() {
+				r.Violate("c02.accepted", "sync of a chain with an application-only hash code succeeded although block %s was served %s", w.CidName(altered), what)
+			}
+		}
+		for _, h := range hooks {
+			if altered.Defined() && h.Cid == altered {
+				r.Violate("c02.hooked", "block %s (application-only hash code) was served %s and handed to the block hook", w.CidName(altered), what)
+			}
+		}
+		if aerr := sub.Store.Audit(); aerr != nil {
+			r.Violate("c02.audit", "after syncing a chain with an application-only hash code (block %s %s): %v", w.CidName(altered), what, aerr)
+		}
+	}
+	r.State(fmt.Sprintf("appHash ads=%d %s", nAds, what))
+	r.NoteEnabled(2)
+	r.MarkEnd()
+	w.Shutdown(sub, lst)
+}
